@@ -88,7 +88,9 @@ func relevantAxioms(fr *FuncResult, text string) []string {
 	return out
 }
 
-func buildQuery(fr *FuncResult, o *Oblig) string {
+// variant: 0 = all relevant axioms (the reference query), 1 = only axioms relevant to the goal itself,
+// 2 = no spec axioms at all. Variants 1 and 2 assume less, so their unsat answers are just as valid.
+func buildQuery(fr *FuncResult, o *Oblig, variant int) string {
 	var sb strings.Builder
 	sb.WriteString("(set-option :produce-models true)\n(set-logic ALL)\n")
 	for _, d := range fr.Decls {
@@ -105,8 +107,15 @@ func buildQuery(fr *FuncResult, o *Oblig) string {
 		tb.WriteByte('\n')
 	}
 	tb.WriteString(o.Reach + "\n" + o.Goal)
-	for _, a := range relevantAxioms(fr, tb.String()) {
-		sb.WriteString("(assert " + a + ")\n")
+	switch variant {
+	case 0:
+		for _, a := range relevantAxioms(fr, tb.String()) {
+			sb.WriteString("(assert " + a + ")\n")
+		}
+	case 1:
+		for _, a := range relevantAxioms(fr, o.Goal) {
+			sb.WriteString("(assert " + a + ")\n")
+		}
 	}
 	for _, c := range fr.Cons[:o.NCons] {
 		sb.WriteString("(assert " + c + ")\n")
@@ -161,7 +170,7 @@ func runSolver(ctx context.Context, sp solverSpec, file string, timeoutS int) so
 
 // solve races the solvers on one obligation.
 func solve(dir string, fr *FuncResult, o *Oblig, timeoutS int, all bool) {
-	q := buildQuery(fr, o)
+	q := buildQuery(fr, o, 0)
 	file := filepath.Join(dir, sanitizeFile(o.Name)+".smt2")
 	os.WriteFile(file, []byte(q), 0644)
 	o.File = file
@@ -174,14 +183,46 @@ func solve(dir string, fr *FuncResult, o *Oblig, timeoutS int, all bool) {
 	}
 	ctx, cancel := context.WithTimeout(context.Background(), time.Duration(timeoutS+2)*time.Second)
 	defer cancel()
-	ch := make(chan solveOut, len(solvers))
-	for _, sp := range solvers {
-		sp := sp
-		go func() { ch <- runSolver(ctx, sp, file, timeoutS) }()
+	type job struct {
+		sp   solverSpec
+		file string
+		ref  bool // reference query: sat answers count
 	}
-	var outs []solveOut
-	for range solvers {
+	jobs := []job{}
+	for _, sp := range solvers {
+		jobs = append(jobs, job{sp, file, true})
+	}
+	if o.Expect == "unsat" && len(fr.Axioms) > 0 {
+		q1, q2 := buildQuery(fr, o, 1), buildQuery(fr, o, 2)
+		if q1 != q {
+			f1 := filepath.Join(dir, sanitizeFile(o.Name)+".v1.smt2")
+			os.WriteFile(f1, []byte(q1), 0644)
+			jobs = append(jobs, job{solverSpec{"z3-new/goal-axioms", solvers[0].args}, f1, false})
+			jobs = append(jobs, job{solverSpec{"z3-new/goal-axioms/noauto", func(f string, t int) []string {
+				return []string{"z3-new", fmt.Sprintf("-T:%d", t), "smt.auto_config=false", f}
+			}}, f1, false})
+		}
+		if q2 != q1 {
+			f2 := filepath.Join(dir, sanitizeFile(o.Name)+".v2.smt2")
+			os.WriteFile(f2, []byte(q2), 0644)
+			jobs = append(jobs, job{solverSpec{"z3-new/no-axioms", solvers[0].args}, f2, false})
+		}
+	}
+	type jout struct {
+		solveOut
+		ref bool
+	}
+	ch := make(chan jout, len(jobs))
+	for _, j := range jobs {
+		j := j
+		go func() { ch <- jout{runSolver(ctx, j.sp, j.file, timeoutS), j.ref} }()
+	}
+	var outs []jout
+	for range jobs {
 		r := <-ch
+		if !r.ref && r.result != "unsat" {
+			continue // weaker queries only count when they prove the goal
+		}
 		outs = append(outs, r)
 		if !all && (r.result == "sat" || r.result == "unsat") {
 			cancel()
@@ -189,7 +230,7 @@ func solve(dir string, fr *FuncResult, o *Oblig, timeoutS int, all bool) {
 		}
 	}
 	// pick: a definite answer wins; disagreement is reported as unknown
-	var def *solveOut
+	var def *jout
 	disagree := false
 	for i := range outs {
 		r := &outs[i]
